@@ -176,6 +176,26 @@ def check_registry(ctx, repo, rule, pump_key=None, only=None):
             ctx.ob(rule, "registry::same-name-tasks-both-cancelled", ok,
                    f"two live tasks started with the same name and key {k!r}: cancel_key_tasks({k!r}) cancels {[t.attrs['_cancelled'] for t in (a, b)]} - a task the registry no longer knows survives reset and exit",
                    repo.method(TM, "add_task").loc)
+    if "forgotten" in want:
+        # finished tasks that the tidy pass has not removed yet sit between live ones: the cancel must still reach
+        # every live task of the domain (a registry that edits its list while walking it skips the neighbour)
+        k = pump_key or ks[0]
+        other = next((x for x in ks if x != k), k)
+        for label, pattern in (("one-finished-before", "dLL"), ("finished-between", "LdLdL"), ("two-finished-before", "ddLL"), ("other-domain-finished-before", "oLL")):
+            R.fresh()
+            ts = []
+            for i, ch in enumerate(pattern):
+                t = R.add(f"task {i}", other if ch == "o" else k)
+                if ch in "do":
+                    t.attrs["_done"] = True
+                ts.append((ch, t))
+            err = R.cancel_key(k)
+            live = [t.attrs["_cancelled"] for ch, t in ts if ch == "L"]
+            ctx.ob(rule, f"registry::cancel-reaches-every-live-task::{label}", err is None and all(live),
+                   (f"cancel_key_tasks({k!r}) raises {err}" if err else
+                    f"cancel_key_tasks({k!r}) over the tasks {pattern} (d = finished, not yet tidied; L = live; o = finished task of another domain) cancels the live ones {live}: "
+                    f"a live task of the domain survives its cancel (an endpoint's consumer or broadcast loop keeps running after discovery / reset)"),
+                   loc)
     if "gather" in want:
         R.fresh()
         ts = [R.add("a", ks[0]), R.add("a", ks[0]), R.add("b", ks[-1])]
